@@ -687,6 +687,10 @@ def _range(ex, st, self_v, args, kwargs, node):
         lo, hi = args[0].t, args[1].t
     else:
         raise Unsupported("range with step")
+    clo, chi = const_int(lo), const_int(hi)
+    if clo is not None and chi is not None and chi - clo <= 8:
+        # small constant range: a literal list (for-loops over it are unrolled)
+        return R1(ex, st, st.alloc(HList([SInt(k) for k in range(clo, chi)])))
     n = If(hi > lo, hi - lo, iv(0))
     i = z3.Int("i?range")
     arr = z3.Lambda([i], lo + i)
